@@ -15,11 +15,12 @@ CONSTANTS
   TreeStart = TRUE
   Ends = {0}
   Aheads = {0}
+  Lags = {0}
   MaxFaults = 1
   FaultBudgets = {1}
   MaxRestarts = 1
 INIT MCInit
 NEXT Next
-INVARIANTS TypeOK Mirror Bounded Gate NoConflict QuotaRetried Complete PosCovered VerbatimBad PrefixOK
+INVARIANTS TypeOK Mirror Bounded Gate NoConflict QuotaRetried Complete PosCovered NoRepeat VerbatimBad PrefixOK
 PROPERTIES GateAct QuotaAct
 CHECK_DEADLOCK FALSE
